@@ -12,7 +12,8 @@ import (
 )
 
 // TestReplay replays the violation file named in VERIF_REPLAY as a plain unit test, without the explorer:
-//   VERIF_REPLAY=/verif/replays/C01/quick-0.json go test -tags verif -run TestReplay .
+//
+//	VERIF_REPLAY=/verif/replays/C01/quick-0.json go test -tags verif -run TestReplay .
 func TestReplay(t *testing.T) {
 	path := os.Getenv("VERIF_REPLAY")
 	if path == "" {
